@@ -166,6 +166,33 @@ Definition holds (c : case) (o : obs) : list string :=
         end) ++
   (if vals_eqb (snd o) (fst o) then [] else ["cache_transparent"%string]).
 
+(* ---------- the hypotheses of theorem C18_holds as a boolean ---------- *)
+Definition table_clean (t : table) : bool :=
+  forallb (fun row => forallb (fun x => negb (tv_through_scalar x)) (snd (snd row))) t.
+Definition err_eqb (a b : err) : bool :=
+  match a, b with
+  | ParseErr, ParseErr | OutOfFuel, OutOfFuel => true
+  | Raise x, Raise y => str_eqb x y
+  | _, _ => false
+  end.
+Definition res_eqb (a b : res expr) : bool :=
+  match a, b with
+  | Ok x, Ok y => expr_eqb x y
+  | Er x, Er y => err_eqb x y
+  | _, _ => false
+  end.
+(* [valid] (C18/HoldsProof.v) is decidable from the case: its last part - the string is a legal layout of the
+   intended tree - is equivalent to "the documented grammar yields that tree" by parse_sound / parse_print
+   (C18.Props.C18_validb_valid) *)
+Definition validb (c : case) : bool :=
+  res_eqb (parse (c_var c) (table_compile (c_table c)) (c_str c)) (reference c) &&
+  match reference c with Er (Raise _) => false | _ => true end &&
+  (negb (lookup_escapes (c_var c)) || table_clean (c_table c)) &&
+  match c_expected c with
+  | Some e => match reference c with Ok e' => expr_eqb e e' | Er _ => false end
+  | None => true
+  end.
+
 (* ---------- decoding ---------- *)
 Definition as_variants (x : sx) : option variants :=
   match x with
@@ -205,7 +232,7 @@ Definition entry (x : sx) : sx :=
   match x with
   | L [I 1%Z; L cs] =>     (* sweep of is_space over code points *)
       match omap asN cs with
-      | Some cs => L [L (map (fun c => sxBool (is_space c)) cs); L []; L []]
+      | Some cs => L [L (map (fun c => sxBool (is_space c)) cs); L []; L []; L []; L []]
       | None => sxS "bad-case"
       end
   | _ =>
@@ -214,6 +241,7 @@ Definition entry (x : sx) : sx :=
       | Some (c, io) =>
           let m := run_model c in
           L [ sx_obs m; L (map sxS (holds c m)); L (map sxS (holds c io));
+              L []; sxBool (validb c);
               sx_res (parse (c_var c) (table_compile (c_table c)) (c_str c));
               sx_res (reference c);
               L (map sx_val (wanted c)) ]
